@@ -5,183 +5,208 @@ from ..core import Report, Finding, AnalysisError
 from ..facts import Facts
 from ..astutil import unparse
 from ..pathwalk import show, is_const, C
-from ..poly import Poly, to_poly, normalise_gt
-from .. import dfurules as D
-from ..immsites import contains, find_all
+from ..poly import Poly
+from .. import dfurules as D, oracle
+from ..dfurules import LEN, PAGE, strip
 
 LEVEL = 'other'
 FILE = 'bronzebeard/dfu.py'
 
 
-def canon_sym(v):
-    v = D.strip(v) if isinstance(v, tuple) and v and v[0] == 'res' and False else v
-    return v
+def failing_exit(kind, val):
+    """True if a RAISE / EXIT event ends the process with a non-zero status."""
+    arg = None
+    if kind == 'RAISE':
+        v = strip(val)
+        if v[0] in ('call', 'new') and v[1] == 'SystemExit':
+            arg = v[2][0] if v[2] else C(None)
+        elif v[0] == 'name' and v[1] == 'SystemExit':
+            arg = C(None)
+        elif v[0] in ('call', 'new', 'name'):
+            return True            # any other exception: traceback, exit status 1
+        else:
+            return True
+    elif kind == 'EXIT':
+        arg = val[0] if val else C(None)
+    if arg is None:
+        return False
+    if is_const(arg):
+        a = arg[1]
+        if a is None or a is False or a == 0:
+            return False
+        return True
+    return True        # a formatted message / computed non-constant: SystemExit(str) exits 1
 
 
-def guard_poly(test):
-    """Normalise the size guard  len(firmware) > page_size * page_count  as P > 0 over canonical symbols."""
-    def rename(v):
-        s = D.strip(v)
-        if s[0] == 'call' and s[1] == 'len' and len(s[2]) == 1:
-            return ('LEN',)
-        if v[0] == 'res':
-            return ('sym', v[1])
-        if v[0] == 'name':
-            return ('sym', v[1])
-        return v
-    return normalise_gt(test, rename)
+def expected_capacity(m, consts, S):
+    """Flash capacity this path must be guarded with, as a Poly (None when the path carries no variant information)."""
+    letter = m.gd32_letter()
+    if letter is not None and letter[0] in oracle.DFU['gd32_pages']:
+        return Poly.const(oracle.DFU['gd32_pages'][letter[0]] * oracle.DFU['gd32_page_size']), 'GD32 letter {!r}'.format(letter[0])
+    return None, None
 
 
 def run(repo, tier):
     facts = Facts(repo.dfu, FILE)
     rep = Report('C19', LEVEL,
-                 'Paths of dfu.cli_main are enumerated symbolically (no USB, nothing executed).  (1) The size guard, normalised as a '
-                 'polynomial inequality len(firmware) - page_size*page_count > 0 -> SystemExit, lies before every DNLOAD / CLRSTATUS '
-                 'request on every path.  (2) Checked-then-ignored: wherever the code tests the polled status against STATUS_OK, the '
-                 'bad-status edge must leave through SystemExit / sys.exit with a non-zero, non-empty argument and never reach the normal '
-                 'end; (3) the status polled after every erase and every data download flows into such a test.')
+                 'Paths of dfu.cli_main are enumerated symbolically with every helper inlined (no USB, nothing executed); events are the '
+                 'ctrl_transfer calls classified by their folded arguments.  (1) The size guard, normalised as a polynomial inequality '
+                 'len(firmware) - CAP > 0 -> failing exit, lies before every DNLOAD / CLRSTATUS request on every path, and CAP is the flash '
+                 'capacity: S * page_count for the chunk size S, 1024 * pages(letter) on GD32 paths.  (2) Checked-then-ignored: wherever '
+                 'the code tests byte 0 of a GETSTATUS reply against STATUS_OK, the bad-status edge must leave through a failing exit and '
+                 'send nothing more; (3) after every erase and every data download, byte 0 of the *latest* reply flows into such a test '
+                 'before the next request.')
     rep.trusted_base = ['CPython ast', 'bbverif.pathwalk', 'DFU 1.1 request numbers (oracle)']
     rep.not_decided = ['device errors that surface only as USB stalls (pyusb exceptions abort with a traceback)',
                        'errors during SET_ADDRESS (its status is overwritten by the next poll)']
-    helpers = D.Helpers(facts)
-    rep.count('request helpers classified', len(helpers.kind))
     fn, paths = D.main_paths(facts)
     rep.count('paths through cli_main', len(paths))
     consts = facts.consts
-    svars = D.status_vars(fn, helpers)
-
-    def rename(v):
-        return ('sym', v[1]) if v[0] in ('name', 'res') else v
-
-    def want_for(p):
-        ps = p.env.get('page_size', ('name', 'page_size'))
-        pc = p.env.get('page_count', ('name', 'page_count'))
-        return Poly({(('LEN',),): 1}) - to_poly(ps, rename) * to_poly(pc, rename)
     n_req = 0
+    n_tests = 0
     guard_seen = False
+    seen = set()
     for p in paths:
-        evs = D.protocol_events(p, helpers)
-        want = want_for(p)
-        guarded = False
-        last_dn = None          # (kind, idx) of the last ERASE / DATA request whose status has not been tested yet
-        polled_after = False
-        last_poll_loop = None
-        last_poll = None        # symbolic result of the most recent GETSTATUS on this path
-        last_poll_node = None
-        in_loop_polls = {}      # while node -> names rebound from a poll inside that loop
-        for kind, idx, node, args, fname, raw in evs:
+        m = D.PathModel(p, consts)
+        evs = m.evs
+        datas = [r for r in m.reqs if r.kind == 'DATA']
+        # symbols: LEN is len() of the value read from the file; S the chunk size when the path gets as far as a data download
+        raw = None
+        S = None
+        if datas:
+            shape = m.data_shape(datas[0])
+            if not isinstance(shape, str):
+                raw, S = shape[4], shape[3]
+        if raw is None:
+            # paths that end before the first data download: the file content is the res bound from a .read() call
+            for ev in p.events:
+                if ev[0] == 'value' and ev[1][0] == 'res' and strip(ev[1])[0] == 'mcall' and strip(ev[1])[2].startswith('read'):
+                    raw = ev[1]
+        sym = D.Sym(consts, [], raw)
+        # (1) guard
+        guard = None
+        for kind, idx, node, payload in evs:
             if kind == 'COND':
-                test, pol = args
-                g = guard_poly(test)
-                if g is not None and ('LEN',) in {s for k in g.terms for s in k}:
-                    # the continuing branch is the one where the guard is false
-                    if pol is False and g == want:
-                        guarded = True
-                        guard_seen = True
-                    elif pol is False:
-                        rep.fail(Finding('R19.1.guard', 'cli_main', node,
-                                         'the firmware size guard refuses when {} > 0; the flash holds page_size*page_count bytes, so it must refuse exactly when '
-                                         'len(firmware) - page_size*page_count > 0'.format(g), file=FILE, line=node.lineno), instance='guard form')
-                        guarded = True
-                st = D.status_test(test, consts, helpers, svars)
-                if st is not None and last_poll is not None:
-                    # R19.3 freshness: the tested status must be the one returned by the most recent poll
-                    tested = st[1]
-                    fresh = True
-                    if tested[0] == 'unpack':
-                        src = tested[1]
-                        fresh = src[0] == 'res' and last_poll_node is not None and src[2] == last_poll_node.lineno
-                    elif tested[0] == 'havoc':
-                        fresh = last_poll_node is not None and tested[2] == 'while@{}'.format(getattr(last_poll_loop, 'lineno', -1))
+                g = sym.gt(payload[0])
+                if g is not None and D.mentions(g, LEN):
+                    a, b, high = D.split_by(g, LEN)
+                    if payload[1] is False:
+                        form_ok = not high and b == Poly.const(1)
+                        cap = -a if form_ok else None
+                        want, why = expected_capacity(m, consts, S)
+                        if form_ok and want is not None:
+                            form_ok = cap == want
+                        elif form_ok and S is not None:
+                            q = D.divide(cap, S)
+                            form_ok = q is not None and not D.mentions(q, PAGE)
+                            if form_ok:
+                                # page_count looked up in a module table: must be the oracle's table
+                                for k in q.terms:
+                                    for s_ in k:
+                                        tl = D.table_lookup(s_, consts) if isinstance(s_, tuple) else None
+                                        if tl is not None:
+                                            name, dct, key = tl
+                                            form_ok = form_ok and q == Poly.sym(s_) and S == Poly.const(oracle.DFU['gd32_page_size']) \
+                                                and all(dct.get(l) == n for l, n in oracle.DFU['gd32_pages'].items())
+                        if guard is None:
+                            guard = (idx, form_ok)
+                        if form_ok:
+                            guard_seen = True
+                        elif (repr(g),) not in seen:
+                            seen.add((repr(g),))
+                            rep.fail(Finding('R19.1.guard', 'cli_main', node,
+                                             'the firmware size guard refuses when {} > 0; it must refuse exactly when len(firmware) exceeds the flash capacity{}'.format(
+                                                 g, ' ({} bytes for {})'.format(want, why) if want is not None else ' (page size * page count)'),
+                                             file=FILE, line=getattr(node, 'lineno', fn.lineno)), instance='guard form')
+                    else:
+                        # the refusing branch: failing exit, nothing sent
+                        rest = [e for e in evs if e[1] > idx]
+                        sent = [e for e in evs if e[0] == 'REQ' and e[3].kind != 'POLL']
+                        exits = [e for e in rest if e[0] in ('RAISE', 'EXIT')]
+                        ok = bool(exits) and failing_exit(exits[-1][0], exits[-1][3]) and not sent and (p.end == 'raise' or exits[-1][0] == 'EXIT')
+                        rep.check(ok, 'R19.1.refuse', 'oversize firmware: failing exit, nothing sent',
+                                  lambda node=node: Finding('R19.1.refuse', 'cli_main', node, 'oversize firmware is not refused with a failing exit before any request', file=FILE,
+                                                            line=getattr(node, 'lineno', fn.lineno)), nontrivial=False)
+        # (2), (3)
+        last_dn = None          # the last ERASE / DATA request whose status has not been tested yet
+        last_poll = None
+        for j, (kind, idx, node, payload) in enumerate(evs):
+            if kind == 'COND':
+                test, pol = payload
+                st = D.status_test(test, consts)
+                if st is None:
+                    continue
+                verdict, tested, weights, uid = st
+                n_tests += 1
+                if strip(tested)[0] == 'havoc':
+                    raise AnalysisError('the status tested at line {} is a loop-carried value the analysis cannot trace to a reply'.format(getattr(node, 'lineno', '?')))
+                if weights is not None and weights != {0: 1}:
+                    rep.fail(Finding('R19.3.status-byte', 'cli_main', node,
+                                     'the value compared with STATUS_OK is not bStatus (byte 0 of the GETSTATUS reply) but bytes {}'.format(sorted(weights)),
+                                     file=FILE, line=getattr(node, 'lineno', None)), instance='status byte')
+                    continue
+                fresh = None
+                if weights is not None and last_poll is not None:
+                    fresh = uid == last_poll.uid
                     rep.check(fresh, 'R19.3.fresh-status', 'the status compared with STATUS_OK is the one of the last GETSTATUS before the test',
                               lambda node=node, tested=tested: Finding('R19.3.fresh-status', 'cli_main', node,
                                                                        'the status tested here ({}) is not the one returned by the most recent GETSTATUS on this path: the polling loop refreshes the '
-                                                                       'state but not the status, so an error reported while the device was settling is missed'.format(show(tested)),
-                                                                       file=FILE, line=node.lineno))
-                if st is not None:
-                    bad = (st[0] == 'bad') == pol
-                    if last_dn is not None and polled_after:
-                        last_dn = None
-                    if bad:
-                        # from here the path must end in a failing exit, with no further request
-                        rest = [e for e in evs if e[1] > idx]
-                        more = [e for e in rest if e[0] in ('ERASE', 'DATA', 'SETADDR', 'CLR')]
-                        exits = [e for e in rest if e[0] in ('RAISE', 'EXIT')]
-                        good_exit = False
-                        if exits and p.end in ('raise',) or (exits and exits[-1][0] == 'EXIT'):
-                            e = exits[-1]
-                            val = e[3]
-                            arg = None
-                            if e[0] == 'RAISE' and val[0] in ('call', 'new') and val[1] == 'SystemExit':
-                                arg = val[2][0] if val[2] else C(None)
-                            elif e[0] == 'EXIT':
-                                arg = val[0] if val else C(None)
-                            if arg is not None:
-                                if is_const(arg):
-                                    good_exit = bool(arg[1]) and arg[1] is not True or (isinstance(arg[1], str) and len(arg[1]) > 0)
-                                else:
-                                    good_exit = True
-                        ok = good_exit and not more
-                        prev = [e[0] for e in evs if e[1] < idx and e[0] in ('ERASE', 'DATA', 'SETADDR')]
-                        after = prev[-1] if prev else 'start'
-                        rep.check(ok, 'R19.2.checked-then-ignored', 'bad status after {} ends the run with a failing exit'.format(after),
-                                  lambda node=node, more=more, after=after: Finding('R19.2.checked-then-ignored', 'cli_main:after-' + after, node,
-                                                                       'the code tests the device status against STATUS_OK but on the bad-status edge the run {}: a failed flash is reported as done'.format(
-                                                                           'keeps sending requests' if more else 'continues to the normal end (exit status 0)'),
-                                                                       file=FILE, line=node.lineno))
-            elif kind in ('ERASE', 'DATA', 'SETADDR', 'CLR'):
-                n_req += 1
-                rep.check(guarded, 'R19.1.dominates', '{} request ({}) is preceded by the size guard'.format(kind, fname),
-                          lambda node=node, kind=kind: Finding('R19.1.dominates', 'cli_main', node,
-                                                               'a {} request can be sent before the firmware size has been checked against the flash size'.format(kind),
-                                                               file=FILE, line=node.lineno), nontrivial=False)
-                if last_dn is not None:
-                    k0, n0 = last_dn
-                    rep.fail(Finding('R19.3.status-tested', 'cli_main', n0,
-                                     'the status polled after this {} request is never compared with STATUS_OK before the next request: a device error goes unnoticed'.format(k0),
-                                     file=FILE, line=n0.lineno), instance='{} at {}'.format(k0, n0.lineno))
+                                                                       'state but not the status, so an error reported while the device was settling is missed'.format(show(tested)[:80]),
+                                                                       file=FILE, line=getattr(node, 'lineno', None)))
+                if weights is None:
+                    raise AnalysisError('cannot trace the value compared with STATUS_OK at line {} to a GETSTATUS reply: {}'.format(getattr(node, 'lineno', '?'), show(tested)[:80]))
+                if last_dn is not None and last_poll is not None and fresh:
                     last_dn = None
-                if kind in ('ERASE', 'DATA'):
-                    last_dn = (kind, node)
-                    polled_after = False
-            elif kind == 'POLL':
-                last_poll = raw
-                last_poll_node = node
-                # is this poll inside a while loop body?  (its statement's ancestors)
-                last_poll_loop = None
-                anc = getattr(node, '_parent', None)
-                while anc is not None:
-                    if isinstance(anc, ast.While):
-                        last_poll_loop = anc
-                        break
-                    anc = getattr(anc, '_parent', None)
+                bad = (verdict == 'bad') == pol
+                if bad:
+                    rest = evs[j + 1:]
+                    more = [e for e in rest if e[0] == 'REQ' and e[3].kind != 'POLL']
+                    exits = [e for e in rest if e[0] in ('RAISE', 'EXIT')]
+                    good_exit = bool(exits) and (p.end == 'raise' or exits[-1][0] == 'EXIT') and failing_exit(exits[-1][0], exits[-1][3])
+                    prev = [e[3].kind for e in evs[:j] if e[0] == 'REQ' and e[3].kind in D.DNLOAD_KINDS]
+                    after = prev[-1] if prev else 'start'
+                    rep.check(good_exit and not more, 'R19.2.checked-then-ignored', 'bad status after {} ends the run with a failing exit'.format(after),
+                              lambda node=node, more=more, after=after: Finding('R19.2.checked-then-ignored', 'cli_main:after-' + after, node,
+                                                                                'the code tests the device status against STATUS_OK but on the bad-status edge the run {}: a failed flash is reported as done'.format(
+                                                                                    'keeps sending requests' if more else 'continues to the normal end (exit status 0)'),
+                                                                                file=FILE, line=getattr(node, 'lineno', None)))
+            elif kind == 'REQ':
+                r = payload
+                if r.kind == 'POLL':
+                    last_poll = r
+                    continue
+                n_req += 1
+                rep.check(guard is not None and guard[0] < idx, 'R19.1.dominates', '{} request is preceded by the size guard'.format(r.kind),
+                          lambda r=r: Finding('R19.1.dominates', 'cli_main', r.site,
+                                              'a {} request can be sent before the firmware size has been checked against the flash size'.format(r.kind),
+                                              file=FILE, line=r.line), nontrivial=False)
                 if last_dn is not None:
-                    polled_after = True
+                    rep.fail(Finding('R19.3.status-tested', 'cli_main', last_dn.site,
+                                     'the status polled after this {} request is never compared with STATUS_OK before the next request: a device error goes unnoticed'.format(last_dn.kind),
+                                     file=FILE, line=last_dn.line), instance='{} at {}'.format(last_dn.kind, last_dn.line))
+                    last_dn = None
+                if r.kind in ('ERASE', 'DATA'):
+                    last_dn = r
+                    last_poll = None
+            elif kind == 'ENDLOOP':
+                if last_dn is not None and any(lp[1] is node for lp in m.loops_of.get(last_dn.idx, [])):
+                    rep.fail(Finding('R19.3.status-tested', 'cli_main', last_dn.site,
+                                     'the status polled after this {} request is never compared with STATUS_OK before the loop goes round to the next request: a device error goes unnoticed'.format(last_dn.kind),
+                                     file=FILE, line=last_dn.line), instance='{} at {}'.format(last_dn.kind, last_dn.line))
+                    last_dn = None
         if last_dn is not None and p.end != 'raise':
-            k0, n0 = last_dn
-            rep.fail(Finding('R19.3.status-tested', 'cli_main', n0,
-                             'the status polled after this {} request is never compared with STATUS_OK: a device error goes unnoticed'.format(k0),
-                             file=FILE, line=n0.lineno), instance='{} at {}'.format(k0, n0.lineno))
-        elif any(e[0] in ('ERASE', 'DATA') for e in evs):
+            rep.fail(Finding('R19.3.status-tested', 'cli_main', last_dn.site,
+                             'the status polled after this {} request is never compared with STATUS_OK: a device error goes unnoticed'.format(last_dn.kind),
+                             file=FILE, line=last_dn.line), instance='{} at {}'.format(last_dn.kind, last_dn.line))
+        elif any(r.kind in ('ERASE', 'DATA') for r in m.reqs):
             rep.ok('R19.3.status-tested', 'every erase / data request has its status tested on every path')
     rep.analysed['requests on paths'] = n_req
+    rep.count('status tests on paths', n_tests)
     if not guard_seen:
-        rep.fail(Finding('R19.1.guard', 'cli_main', 'size guard', 'no test of the firmware length against page_size*page_count precedes the requests', file=FILE, line=fn.lineno))
+        rep.fail(Finding('R19.1.guard', 'cli_main', 'size guard', 'no test of the firmware length against the flash capacity precedes the requests', file=FILE, line=fn.lineno))
     else:
-        rep.ok('R19.1.guard', 'guard normalises to len(firmware) - page_size*page_count > 0 -> refuse')
-    # the guard's refusing branch exits non-zero
-    for p in paths:
-        for t, pol, node in p.conds:
-            g = guard_poly(t)
-            if g is not None and g == want_for(p) and pol is True:
-                ok = p.end == 'raise' and p.events[-1][1][0] in ('call', 'new') and p.events[-1][1][1] == 'SystemExit' \
-                    and p.events[-1][1][2] and not (is_const(p.events[-1][1][2][0]) and not p.events[-1][1][2][0][1])
-                sent = [e for e in D.protocol_events(p, helpers) if e[0] in ('ERASE', 'DATA', 'SETADDR', 'CLR')]
-                rep.check(ok and not sent, 'R19.1.refuse', 'oversize firmware: SystemExit with a message, nothing sent',
-                          lambda node=node: Finding('R19.1.refuse', 'cli_main', node, 'oversize firmware is not refused with a failing exit before any request', file=FILE, line=node.lineno),
-                          nontrivial=False)
-    rep.sample({'helpers': helpers.kind})
-    rep.floor('request helpers classified', 5)
+        rep.ok('R19.1.guard', 'guard normalises to len(firmware) - capacity > 0 -> refuse')
     rep.floor('paths through cli_main', 20)
     rep.floor('requests on paths', 10)
+    rep.floor('status tests on paths', 4)
     return rep
